@@ -525,6 +525,61 @@ func init() {
 		return 0
 	}
 
+	// c06stmt: stdin JSON lines {"id","sql"}; one accepted statement: its tree (generic JSON), SQL() of the statement,
+	// the converted tokens of that text (without EOF), and whether that text re-parses to the same tree
+	subcmds["c06stmt"] = func(args []string) int {
+		sc := bufio.NewScanner(os.Stdin)
+		sc.Buffer(make([]byte, 1<<20), 64<<20)
+		w := bufio.NewWriter(os.Stdout)
+		defer w.Flush()
+		enc := json.NewEncoder(w)
+		enc.SetEscapeHTML(false)
+		type outT struct {
+			ID       string      `json:"id"`
+			Accepted bool        `json:"accepted"`
+			Tree     interface{} `json:"tree,omitempty"`
+			SQL      string      `json:"sql_out,omitempty"`
+			Tokens   []c03tok    `json:"tokens,omitempty"`
+			Reparse  string      `json:"reparse,omitempty"`
+			Panic    string      `json:"panic,omitempty"`
+		}
+		for sc.Scan() {
+			var in struct {
+				ID  string `json:"id"`
+				SQL string `json:"sql"`
+			}
+			if json.Unmarshal(sc.Bytes(), &in) != nil {
+				continue
+			}
+			out := outT{ID: in.ID}
+			out.Panic = guarded(func() {
+				t0, _, err := rtParse(in.SQL)
+				if err != nil || len(t0.Statements) != 1 {
+					return
+				}
+				out.Accepted = true
+				out.Tree = jtree(reflect.ValueOf(t0.Statements[0]), 0)
+				out.SQL = t0.SQL()
+				toks, terr := c03tokenize(out.SQL)
+				if terr != nil {
+					out.Reparse = "tokenizer rejects: " + infoOf(terr).Code
+					return
+				}
+				out.Tokens = c03tokens(toks[:len(toks)-1])
+				t1, _, perr := rtParse(out.SQL)
+				if perr != nil {
+					out.Reparse = "rejected: " + infoOf(perr).Code
+					return
+				}
+				if d := rtTreeDiff(t0, t1); d != nil {
+					out.Reparse = fmt.Sprintf("tree differs at %s (%s.%s): %s vs %s", d.Path, d.Type, d.Field, d.A, d.B)
+				}
+			})
+			_ = enc.Encode(out)
+		}
+		return 0
+	}
+
 	subcmds["c06lit"] = func(args []string) int {
 		sc := bufio.NewScanner(os.Stdin)
 		sc.Buffer(make([]byte, 1<<20), 64<<20)
